@@ -109,10 +109,15 @@ def combine_str(names) -> str:
 
 
 def stereo_real(name: str) -> str:
-    m = image()._STEREO_FILENAME.match(name)
-    if not m:
+    img = image()
+    if hasattr(img, "_split_stereo_name"):  # D21: the expression was replaced by a one-pass splitter
+        g = img._split_stereo_name(name)
+    else:
+        m = img._STEREO_FILENAME.match(name)
+        g = m.groups() if m else None
+    if not g:
         return "none"
-    return f"{hxs(m.group(1))} {hxs(m.group(2))} {m.group(3)}"
+    return f"{hxs(g[0])} {hxs(g[1])} {g[2]}"
 
 
 def tokens_real(akai: bool, path: str) -> str:
